@@ -1097,7 +1097,14 @@ pub fn replay_validate(case: &Value, rep: &mut Report, rng: &mut Rng) {
                    {"kind": "dense", "out": 2, "act": "linear", "bias": true}],
         "loopback": [{"outof": 0, "into": 0, "iterations": 2, "inskips": true}], "accumulation": {"skip": "add", "loop": "mean"},
         "objective": {"kind": "mae"}}));
-    let arch = &archs[(n + len + usize_of(ds, "seed")) % archs.len()];
+    // every generic network under every objective family in turn (the network's objective decides what `validate` reports)
+    const OBJECTIVES: [&str; 7] = ["ae", "mae", "mse", "rmse", "ce", "bce", "kl"];
+    let mut arch = archs[(n + len + usize_of(ds, "seed")) % archs.len()].clone();
+    let last_is_softmax = arch["layers"].as_array().unwrap().last().unwrap()["act"] == "softmax";
+    if !last_is_softmax {
+        arch["objective"] = json!({"kind": OBJECTIVES[(n * 3 + len * 5 + usize_of(ds, "seed") + ds["tol2"].as_u64().unwrap() as usize) % OBJECTIVES.len()]});
+    }
+    let arch = &arch;
     let mut g = nets::build(arch);
     init_params(&mut g, arch, rng);
     let data = arch_dataset(arch, n, rng);
